@@ -234,25 +234,27 @@ def run(chk):
   chk.rule('C11-R5', 'several rules equal one rule with `|`: the DNF of a '
            'disjunction keeps every alternative of every disjunct (no '
            'filtering, no de-duplication - rules are bags)', min_instances=1)
+  from sa import shapes
   dj = repo.func('parse.DisjunctiveNormalForm.DisjunctsToDNF')
-  adds = []
-  for x in walk_local(dj.node):
-    if isinstance(x, ast.For):
-      for y in ast.walk(x):
-        if isinstance(y, ast.AugAssign) and isinstance(y.op, ast.Add):
-          adds.append((x, y.value))
-        if isinstance(y, ast.Call) and call_tail(y) in ('extend',) and y.args:
-          adds.append((x, y.args[0]))
-  if not adds:
+  prods = shapes.productions(dj.node)
+  if not prods:
     raise AnalysisError('DisjunctsToDNF: accumulation of alternatives not found')
-  for loop, val in adds:
-    whole = isinstance(val, ast.Name) and isinstance(loop.target, ast.Name) and val.id == loop.target.id
-    whole = whole or (isinstance(val, ast.Call) and call_tail(val) in ('list', 'deepcopy') and
-                      val.args and dotted(val.args[0]) == dotted(loop.target))
+  for pr_ in prods:
+    if pr_.kind == 'extend':
+      val = pr_.elt
+      whole = not pr_.conds and len(pr_.gens) == 1 and isinstance(pr_.gens[0][0], ast.Name) and (
+          (isinstance(val, ast.Name) and val.id == pr_.gens[0][0].id) or
+          (isinstance(val, ast.Call) and call_tail(val) in ('list', 'deepcopy') and val.args and
+           dotted(val.args[0]) == pr_.gens[0][0].id))
+    else:
+      val = pr_.elt
+      whole = not pr_.conds and len(pr_.gens) == 2 and isinstance(val, ast.Name) and \
+          isinstance(pr_.gens[1][0], ast.Name) and val.id == pr_.gens[1][0].id and \
+          isinstance(pr_.gens[0][0], ast.Name) and dotted(pr_.gens[1][1]) == pr_.gens[0][0].id
     chk.ob('C11-R5', whole, None, 'every alternative of a disjunct is added to the DNF',
            'the DNF of a disjunct is filtered before it is added (%s): an '
            'alternative that occurs twice contributes once, so `A | A` no longer '
-           'equals two rules' % norm(val, 70), fi=dj, node=val)
+           'equals two rules' % norm(val, 70), fi=dj, node=pr_.node)
 
   # `x in [a, b]` equals the alternatives x == a | x == b: one row per list
   # position.  The translation of an inclusion is therefore an unnesting (a
